@@ -585,6 +585,13 @@ def judge(rep, cases, impl, model, known, classify_nontrivial=None, max_report=3
         rep.evaluations += 1
         rep.count("stream:" + c.stream)
         o = impl.get(c.id, "MISSING")
+        if o == "NOT-RUN":
+            # the harness ran out of its time budget (an overloaded machine) before this case was reached: nothing was observed,
+            # so nothing is concluded -- a case the harness hangs or dies ON is reported as HANG / CRASH, not as NOT-RUN
+            rep.count("not-run (harness budget exhausted)")
+            if not any("harness budget" in n_ for n_ in rep.notes):
+                rep.notes.append("harness budget exhausted before every case was run: the cases not reached are counted under `not-run` and not judged")
+            continue
         m = model.get(c.id)
         if m is None:
             rep.notes.append("model produced no answer for %s" % c.id)
